@@ -166,7 +166,7 @@ def r_guard(prog, R, L, ent, virtual, roots):
         for b in f.blocks.values():
             pts = [(i, el) for i, el in enumerate(b.els)]
             for i, el in pts:
-                for n, w in list(_mem_rw(el)) + _container_writes(prog, f, el):
+                for n, w in list(_mem_rw(el)) + _container_writes(prog, f, el) + _nested_lhs_writes(el):
                     if n["rec"] in GUARDED_RECORDS and (n["rec"], n["f"]) not in UNGUARDED_FIELDS:
                         ds = L.depth_at(f, b, i) or {(0, 0)}
                         dmin = min(d[0] for d in ds)
@@ -207,6 +207,29 @@ def r_guard(prog, R, L, ent, virtual, roots):
                "%s %s %s without the channel lock on some call path from a thread root; another thread (event thread, reload thread or a concurrent caller) writes %s under the lock" % (
                    fn, "writes" if kind == "write" else "reads", flds, "them" if len(flds) > 1 else "it"))
     r.info["mutable_after_publication"] = len(mutable)
+
+
+def _nested_lhs_writes(el):
+    """`obj->sub.field = v` also writes obj's member `sub`"""
+    out = []
+    if el["k"] == "asg":
+        p = strip(el["e"]["l"])
+        first = True
+        while p is not None and p.get("k") in ("mem", "idx"):
+            if p.get("k") == "mem" and not first:
+                out.append((p, True))
+            first = False
+            p = strip(p.get("b"))
+    elif el["k"] == "call" and el["e"].get("callee") in ("memset", "memcpy", "memmove", "ares_strcpy"):
+        a = strip(call_arg(el["e"], 0))
+        if a is not None and a.get("k") == "un" and a["op"] == "&":
+            a = strip(a["e"])
+        p = a
+        while p is not None and p.get("k") in ("mem", "idx"):
+            if p.get("k") == "mem":
+                out.append((p, True))
+            p = strip(p.get("b"))
+    return out
 
 
 def _container_writes(prog, f, el):
